@@ -11,6 +11,7 @@ inductive SOp where
   | fresh (reader : Bool) (pin : Nat)
   | cp (claim stateTick hashKind : Nat)
   | cpo (claim stateTick hashKind : Nat)
+  | cpt (claim stateTick : Nat) (kind : String) (j a : Nat)
   | fork (k : Nat)
   | replay (t : Nat)
   | ext (j : Nat)
@@ -36,6 +37,7 @@ def sop : P SOp := do
     pure (.fresh (r == "r") p)
   | "cp" => do let c ← num; let s ← num; let hk ← num; pure (.cp c s hk)
   | "cpo" => do let c ← num; let s ← num; let hk ← num; pure (.cpo c s hk)
+  | "cpt" => do let c ← num; let s ← num; let k ← tok; let j ← num; let a ← num; pure (.cpt c s k j a)
   | "fork" => do let k ← num; pure (.fork k)
   | "replay" => do let t ← num; pure (.replay t)
   | "ext" => do let j ← num; pure (.ext j)
@@ -68,10 +70,25 @@ def addCp (base : Base Graph) (st : St) (src : H) (claim stateTick hashKind : Na
         | .ok d => d
         | .error _ => garbage 1
       | _ => garbage 2
-    let c : C := { tick := claim, hash, w, warp := base.warp, s0 := base.s0 }
+    let c : C := { Cp.ofState sem base claim w with hash := hash }
     match addCheckpoint sem h c with
     | .error e => (st, "cp-" ++ errTok e)
     | .ok h' => ({ st with pv := st.pv.set st.wl h' }, "cp-ok")
+
+/-- `cpt`: the state replayed from the unaltered history at `stateTick`, packaged as a checkpoint
+    claiming tick `claim`, with ONE retained field altered, handed to `add_checkpoint`. -/
+def addCpt (base : Base Graph) (st : St) (orig : H) (claim stateTick : Nat) (kind : String) (j a : Nat) :
+    St × String :=
+  let h := curHist st
+  match replayAt sem { orig with cps := [] } base stateTick with
+  | .error e => (st, "cp-src:" ++ errTok e)
+  | .ok w =>
+    match tamperCp orig.entries (Cp.ofState sem base claim w) kind j a with
+    | .error e => (st, "cpt-bad:" ++ e)
+    | .ok c =>
+      match addCheckpoint sem h c with
+      | .error e => (st, "cp-" ++ errTok e)
+      | .ok h' => ({ st with pv := st.pv.set st.wl h' }, "cp-ok")
 
 def runSOp (hs : HistSpec) (orig : H) (base : Base Graph) (st : St) : SOp → St × String
   | .seek t =>
@@ -89,6 +106,7 @@ def runSOp (hs : HistSpec) (orig : H) (base : Base Graph) (st : St) : SOp → St
   | .fresh reader pin => ({ st with cur := Cursor.fresh sem base reader pin }, "new")
   | .cp claim stateTick hashKind => addCp base st (curHist st) claim stateTick hashKind
   | .cpo claim stateTick hashKind => addCp base st orig claim stateTick hashKind
+  | .cpt claim stateTick kind j a => addCpt base st orig claim stateTick kind j a
   | .fork k =>
     let h := curHist st
     let new := 0xF0 + st.nforks
